@@ -38,7 +38,10 @@ def _probe_values(sc, unit, rng, tier):
         vals[lo + 1] = True
         vals[hi - 1] = True
         vals[(lo + hi) // 2] = True
-        for _ in range(3 if tier == "quick" else 12):
+        if tier == "thorough" and hi - lo <= 1100:
+            for v in range(lo, hi + 1):          # small ranges: every value (thorough)
+                vals[v] = True
+        for _ in range(3 if tier == "quick" else 40):
             vals[rng.randint(lo, hi)] = True
     if lo <= 0 <= hi:
         vals[0] = True
